@@ -114,8 +114,3 @@ def gen(rng, tier):
         for argv in MULTI_CMDS:
             yield multigen.multi_case(multigen.alignments(rng), argv, "cli-multi-" + "-".join(argv[:2]))
 
-
-def matches(c):
-    if c.op.startswith("det"):
-        return (c.impl or "").startswith("same")
-    return c.model == c.impl
